@@ -40,6 +40,12 @@ Qed.
 Lemma got_below_head s a i v : Inv s -> In (a, i, v) (got s) -> i < HL s.
 Proof. intros Hi Hin. destruct (IGt _ _ Hi a i v Hin) as (G1 & G2 & _). apply (ICl _ _ Hi). congruence. Qed.
 
+(* an actor at the first control point of a call holds no claim (used before the hypothesis is unfolded:
+   unfolding `unread` on the updated actor record in a hypothesis and then splitting on the kind of the
+   call made the kernel re-check that conversion in the expensive direction - 7 minutes at Qed) *)
+Lemma unread_entry (x : ast) k : pc x = entry k -> unread x = false.
+Proof. unfold unread, holds. intros ->. destruct k; reflexivity. Qed.
+
 Lemma inv2_step s ac s' : Inv s -> Inv2 s -> step s ac = Some s' -> Inv2 s'.
 Proof.
   intros Hi (J1 & J2) H. pose proof (got_below_head s) as GH.
@@ -48,6 +54,7 @@ Proof.
     step_cases H; simp.
     all: try (a_facts Hi a).
     all: destruct (Nat.eq_dec a' a) as [->|Hne]; [rewrite ?upd_eq in * | rewrite ?upd_neq in * by auto]; simp.
+    all: try (exfalso; match goal with Ec : call_ok _ ?k = true |- _ => rewrite (unread_entry _ k) in Hu by reflexivity end; discriminate Hu).
     all: unfold unread, holds in *; simp; rewrite ?Epc in *; cbn beta iota in *.
     all: try discriminate.
     all: try solve [apply J1; auto].
